@@ -284,6 +284,54 @@ fn case_mixed_family(cx: &mut Cx, cs: u64) {
     cx.rep.distinct(&format!("mixed|{}|{}|{}", sock_v6, buffered, cap));
 }
 
+/// Destination port 0: nothing listens there and the kernel refuses the datagram (EINVAL) - that is the socket's answer,
+/// and it is the caller's: exactly one sendto per emit, addressed to the address given, error passed on and counted.
+fn case_port_zero(cx: &mut Cx, cs: u64) {
+    let mut r = Rng::new(cs ^ 0x9021);
+    let lo = loopback(&mut r);
+    let dest: SocketAddr = if lo.starts_with('[') { "[::1]:0".parse().unwrap() } else { "127.0.0.1:0".parse().unwrap() };
+    let sock = UdpSocket::bind(lo).unwrap();
+    let fd = sock.as_raw_fd();
+    let buffered = r.chance(1, 2);
+    let sink: Box<dyn MetricSink> = if buffered { Box::new(BufferedUdpMetricSink::with_capacity(dest, sock, 32).expect("with_capacity")) } else { Box::new(UdpMetricSink::from(dest, sock).expect("from")) };
+    let label = if buffered { "BufferedUdpMetricSink(port 0)" } else { "UdpMetricSink(port 0)" };
+    cx.rep.eval();
+    cx.rep.obs("udp_sinks_addressed_to_port_0", 1);
+    let mark = interpose::mark();
+    let mut results = Vec::new();
+    for k in 0..r.range(2, 8) {
+        let m = format!("zero.n{}:{}|c", k, r.below(1000));
+        results.push((m.clone(), panics::guard(|| sink.emit(&m))));
+    }
+    let _ = panics::guard(|| sink.flush());
+    let recs: Vec<interpose::Rec> = interpose::since(mark).into_iter().filter(|x| x.fd == fd).collect();
+    let trace = jobj! {"sink" => label, "destination" => dest.to_string(),
+        "sendto_calls" => Json::Arr(recs.iter().map(|x| jobj!{"len" => x.payload.len(), "result" => x.result as i64, "errno" => x.errno, "dest" => format!("{:?}", decode_dest_inet(&x.dest))}).collect())};
+    if let Some(x) = recs.iter().find(|x| decode_dest_inet(&x.dest) != Some(dest)) {
+        cx.violation("C13", "destination", "wrong-destination", format!("{}: the sink was built for {}, a datagram was addressed to {:?}", label, dest, decode_dest_inet(&x.dest)), trace, cs);
+        return;
+    }
+    if recs.is_empty() {
+        cx.violation("C13", "one-datagram-per-emit", "sendto-count", format!("{}: emits and a flush made no sendto call", label), trace, cs);
+        return;
+    }
+    if !buffered {
+        for ((m, res), rec) in results.iter().zip(recs.iter()) {
+            let ok = match (res, rec.result) {
+                (Ok(Ok(nb)), sent) if sent >= 0 => *nb as isize == sent,
+                (Ok(Err(e)), sent) if sent < 0 => e.raw_os_error() == Some(rec.errno),
+                _ => false,
+            };
+            if !ok {
+                cx.violation("C13", "returns-bytes-sent", "result-contradicts-socket", format!("{}: emit({:?}) returned {:?} but sendto returned {} (errno {})", label, m, res, rec.result, rec.errno), trace, cs);
+                return;
+            }
+        }
+    }
+    cx.rep.obs("kernel_socket_errors_checked", recs.iter().filter(|x| x.result < 0).count() as u64);
+    cx.rep.distinct(&format!("port0|{}|{}", lo, buffered));
+}
+
 fn case_unbuffered(cx: &mut Cx, cs: u64) {
     let mut r = Rng::new(cs);
     let udp = r.chance(1, 2);
@@ -321,6 +369,7 @@ fn case_unbuffered(cx: &mut Cx, cs: u64) {
     let decoy_addr = udp_decoy.local_addr().unwrap();
     // the address argument resolves to several addresses: the FIRST must be used
     let multi: Vec<SocketAddr> = vec![target_addr, decoy_addr];
+    let connected_elsewhere = r.chance(1, 5);
     let sink: Box<dyn MetricSink>;
     let fd;
     let probe;
@@ -328,6 +377,11 @@ fn case_unbuffered(cx: &mut Cx, cs: u64) {
     if udp {
         let sock = UdpSocket::bind(lo).unwrap();
         sock.set_nonblocking(nonblocking).unwrap();
+        if connected_elsewhere {
+            // the caller's socket happens to be connect()ed to some other peer: the sink still sends to ITS address
+            sock.connect(decoy_addr).unwrap();
+            cx.rep.obs("sinks_given_a_socket_connected_to_another_peer", 1);
+        }
         fd = sock.as_raw_fd();
         probe = ModeProbe::new(fd);
         let made = if r.chance(1, 2) { UdpMetricSink::from(&multi[..], sock) } else { UdpMetricSink::from(target_addr, sock) };
@@ -336,6 +390,10 @@ fn case_unbuffered(cx: &mut Cx, cs: u64) {
     } else {
         let sock = UnixDatagram::unbound().unwrap();
         sock.set_nonblocking(nonblocking).unwrap();
+        if connected_elsewhere {
+            sock.connect(&unix_decoy_path).unwrap();
+            cx.rep.obs("sinks_given_a_socket_connected_to_another_peer", 1);
+        }
         fd = sock.as_raw_fd();
         probe = ModeProbe::new(fd);
         sink = Box::new(UnixMetricSink::from(&unix_path, sock));
@@ -471,7 +529,10 @@ fn case_buffered(cx: &mut Cx, cs: u64) {
     let faults = cx.prop == "C07" || (cx.prop == "C14" && r.chance(1, 2));
     let default_cap = r.chance(1, 5);
     // capacities above what one datagram can carry are legal too (UDP: 65507 bytes; the kernel then refuses with EMSGSIZE)
-    let cap = if default_cap { 512 } else if r.chance(1, 6) { *r.pick(&[66000usize, 70000, 100000]) } else { *r.pick(&[0usize, 1, 8, 40, 100, 512, 1432, 9000]) };
+    // a destination on another host (documentation networks; this sandbox cannot reach it, the interposer answers for the
+    // kernel): how a sink packs does not depend on where the datagrams go
+    let remote = udp && !faults && !default_cap && r.chance(1, 5);
+    let cap = if remote { *r.pick(&[1433usize, 1500, 2000, 4000, 9000, 1233, 1400]) } else if default_cap { 512 } else if r.chance(1, 6) { *r.pick(&[66000usize, 70000, 100000]) } else { *r.pick(&[0usize, 1, 8, 40, 100, 512, 1432, 9000]) };
     let relative = !udp && r.chance(1, 4);
     let dir = fresh_dir();
     let old_cwd = std::env::current_dir().ok();
@@ -496,8 +557,21 @@ fn case_buffered(cx: &mut Cx, cs: u64) {
     if udp && lo.starts_with('[') {
         cx.rep.obs("ipv6_loopback_cases", 1);
     }
-    let udp_recv = UdpSocket::bind(lo).unwrap();
+    let lo = if remote { if lo.starts_with('[') { "[::]:0" } else { "0.0.0.0:0" } } else { lo };
+    let udp_recv = UdpSocket::bind(if remote { if lo.starts_with('[') { "[::1]:0" } else { "127.0.0.1:0" } } else { lo }).unwrap();
     udp_recv.set_read_timeout(Some(Duration::from_millis(500))).unwrap();
+    let udp_dest: SocketAddr = if remote {
+        if lo.starts_with('[') { "[2001:db8::7]:8125".parse().unwrap() } else { (*r.pick(&["192.0.2.7:8125", "198.51.100.9:8125", "10.11.12.13:8125", "8.8.8.8:8125"])).parse().unwrap() }
+    } else {
+        udp_recv.local_addr().unwrap()
+    };
+    struct FakeOff;
+    impl Drop for FakeOff {
+        fn drop(&mut self) {
+            interpose::FAKE_OK_FD.store(-1, Ordering::SeqCst);
+        }
+    }
+    let _fake_off = FakeOff;
     let unix_path = sock_path(&mut r, &dir, relative);
     if unix_path.as_os_str().as_encoded_bytes().first().map(|b| !b.is_ascii_alphanumeric() && *b != b'/' && *b != b'.').unwrap_or(false) {
         cx.rep.obs("unix_socket_paths_starting_with_a_special_byte", 1);
@@ -560,7 +634,11 @@ fn case_buffered(cx: &mut Cx, cs: u64) {
         let sock = UdpSocket::bind(lo).unwrap();
         fd = sock.as_raw_fd();
         probe = ModeProbe::new(fd);
-        sink = Box::new(if default_cap { BufferedUdpMetricSink::from(udp_recv.local_addr().unwrap(), sock).unwrap() } else { BufferedUdpMetricSink::with_capacity(udp_recv.local_addr().unwrap(), sock, cap).unwrap() });
+        if remote {
+            interpose::FAKE_OK_FD.store(fd, Ordering::SeqCst);
+            cx.rep.obs("buffered_udp_sinks_sending_to_another_host", 1);
+        }
+        sink = Box::new(if default_cap { BufferedUdpMetricSink::from(udp_dest, sock).unwrap() } else { BufferedUdpMetricSink::with_capacity(udp_dest, sock, cap).unwrap() });
         label = if default_cap { "W3-udp-default-capacity" } else { "W3-udp" };
     } else {
         let sock = UnixDatagram::unbound().unwrap();
@@ -671,7 +749,7 @@ fn case_buffered(cx: &mut Cx, cs: u64) {
             .collect();
         // every datagram of the sink goes to the address / path it was constructed with
         for x in &recs {
-            let ok = if udp { decode_dest_inet(&x.dest) == udp_recv.local_addr().ok() } else { decode_dest_unix(&x.dest).as_deref() == Some(unix_path.as_path()) };
+            let ok = if udp { decode_dest_inet(&x.dest) == Some(udp_dest) } else { decode_dest_unix(&x.dest).as_deref() == Some(unix_path.as_path()) };
             if !ok && wrong_dest.is_none() {
                 wrong_dest = Some(format!("call #{}: datagram addressed to {:?}/{:?}", k, decode_dest_inet(&x.dest), decode_dest_unix(&x.dest)));
             }
@@ -837,18 +915,37 @@ fn case_stats(cx: &mut Cx, cs: u64, enum_pattern: Option<Vec<bool>>) {
     let cap = *r.pick(&[16usize, 64, 512]);
     let fd;
     let label;
+    // a quarter of the UDP cases: nobody listens at the destination, and (half of those) the caller hands over a socket
+    // it has connect()ed there - the kernel then reports ECONNREFUSED for the datagram AFTER the one that bounced. What
+    // was accepted stays accepted; every attempt is accounted for by its own result.
+    let dead_dest: Option<SocketAddr> = if which % 2 == 0 && r.chance(1, 4) {
+        let t = UdpSocket::bind("127.0.0.1:0").unwrap();
+        let a = t.local_addr().unwrap();
+        drop(t);
+        Some(a)
+    } else {
+        None
+    };
+    let connect_first = dead_dest.is_some() && r.chance(1, 2);
+    if dead_dest.is_some() {
+        cx.rep.obs(if connect_first { "udp_sinks_on_a_connected_socket_with_nobody_listening" } else { "udp_sinks_with_nobody_listening" }, 1);
+    }
+    let udp_to: SocketAddr = dead_dest.unwrap_or_else(|| udp_recv.local_addr().unwrap());
     let base: Arc<dyn MetricSink + Send + Sync + std::panic::RefUnwindSafe> = match which {
         0 => {
             let s = UdpSocket::bind("127.0.0.1:0").unwrap();
+            if connect_first {
+                s.connect(udp_to).unwrap();
+            }
             fd = s.as_raw_fd();
             label = "UdpMetricSink";
             // (the address argument may resolve to several addresses: only the first is ever used, so every attempt the
             // sink accounts for is exactly one sendto)
             if r.chance(1, 2) {
-                let list: Vec<SocketAddr> = vec![udp_recv.local_addr().unwrap(), "127.0.0.1:9".parse().unwrap()];
+                let list: Vec<SocketAddr> = vec![udp_to, "127.0.0.1:9".parse().unwrap()];
                 Arc::new(UdpMetricSink::from(&list[..], s).unwrap())
             } else {
-                Arc::new(UdpMetricSink::from(udp_recv.local_addr().unwrap(), s).unwrap())
+                Arc::new(UdpMetricSink::from(udp_to, s).unwrap())
             }
         }
         1 => {
@@ -859,13 +956,16 @@ fn case_stats(cx: &mut Cx, cs: u64, enum_pattern: Option<Vec<bool>>) {
         }
         2 => {
             let s = UdpSocket::bind("127.0.0.1:0").unwrap();
+            if connect_first {
+                s.connect(udp_to).unwrap();
+            }
             fd = s.as_raw_fd();
             label = "BufferedUdpMetricSink";
             if r.chance(1, 2) {
-                let list: Vec<SocketAddr> = vec![udp_recv.local_addr().unwrap(), "127.0.0.1:9".parse().unwrap()];
+                let list: Vec<SocketAddr> = vec![udp_to, "127.0.0.1:9".parse().unwrap()];
                 Arc::new(BufferedUdpMetricSink::with_capacity(&list[..], s, cap).unwrap())
             } else {
-                Arc::new(BufferedUdpMetricSink::with_capacity(udp_recv.local_addr().unwrap(), s, cap).unwrap())
+                Arc::new(BufferedUdpMetricSink::with_capacity(udp_to, s, cap).unwrap())
             }
         }
         _ => {
@@ -1167,6 +1267,9 @@ fn main() {
                         case_unbuffered(&mut cx, cs);
                         if cs % 8 == 0 {
                             case_mixed_family(&mut cx, cs);
+                        }
+                        if cs % 16 == 1 {
+                            case_port_zero(&mut cx, cs);
                         }
                     }
                     "buffered" => case_buffered(&mut cx, cs),
